@@ -19,7 +19,8 @@ RULE = ('worlds {2,3,4} (thorough +6,8) x generated models x placements sampled 
         'bucket cap in {0,1e-6,5e-4,25}, symmetric on/off, hook/no-hook, method as enum or string} x 3-6 steps with F in {1,2}, I in {1,2,3}, accumulation 1-2, '
         'all scheduler policies; non-trivial: world>1, >=2 placements compared and >=1 sub-group collective matched; distinct = (model, world, placement set); '
         'distinct rank interleavings counted by hash of the scheduler decision sequence')
-ASSUMPTIONS = ['DDP gradient averaging is emulated by an explicit harness allreduce-mean',
+ASSUMPTIONS = ['the simulator is cross-validated against real gloo processes on a few scenarios per run (traces_validated_against_impl); gloo being unavailable is a skip, a disagreement makes the check inconclusive',
+               'DDP gradient averaging is emulated by an explicit harness allreduce-mean',
                'equal per-rank batch sizes (needed for the union equivalence)', 'ranks share one process and BLAS (cross-rank bitwise equality is easier than on a cluster)',
                'models for the union comparison contain no batch-statistics layers']
 REQUIRED = ['cross_rank_checks', 'placement_pairs_compared', 'union_checks']
@@ -162,15 +163,57 @@ def run_case(rng, res, idx, tier):
     res.sample(dict(idx=idx, W=W, steps=nsteps, placements=pls[:3], cfg={k: cfg[k] for k in ('method', 'prediv', 'F', 'I', 'damping', 'acc', 'pdt')}))
 
 
+def run_fidelity(rng, res, idx):
+    """Simulator vs real gloo processes on the same scenario (DESIGN.md 2.5): a disagreement is a defect of the simulator."""
+    import copy as _copy
+    from kverif import gloo_xval, kharness as kh, scenario, simdist
+
+    W = rng.choice([2, 2, 3, 4])
+    cfg = kh.make_config(rng, callables=False, dtypes=('float64',), inv_dtypes=('float32',), kl=('const', 'big'), max_acc=2)
+    cfg['k'] = rng.choice(scenario.divisors(W))
+    cfg['colocate'] = True if (cfg['method'] == 'eigen' and cfg['prediv']) else rng.random() < 0.5
+    spec = dict(model_seed=rng.randrange(10 ** 6), data_seed=rng.randrange(10 ** 6), batch=rng.randint(1, 3), cfg=cfg, history=[('train',)] * rng.randint(2, 4), record=[],
+                unsupported=False)
+    run = scenario.run(spec, W, seed=idx, policy=rng.choice(simdist.POLICIES))
+    r_, tb = run.first_exception()
+    if run.inconclusive or (tb and 'ConfigRejected' in tb.strip().splitlines()[-1]):
+        res.skip('fidelity scenario not runnable')
+        return
+    if run.failed():
+        return res.violation('fidelity scenario failed on the simulator: ' + run.failure_summary(), dict(idx=idx, kind='fidelity', W=W, cfg=cfg))
+    gres, err = gloo_xval.run_gloo(_copy.deepcopy(spec), W)
+    if gres is None:
+        res.skip('gloo run unavailable: ' + str(err)[:60])
+        return
+    bad = gloo_xval.compare(spec, W, run, gres)
+    if bad:
+        res.inconclusive.append('SIMULATOR FIDELITY: simdist and real gloo disagree: ' + '; '.join(bad[:3]))
+        return
+    res.count('traces_validated_against_gloo')
+    res.count('gloo_events_compared', sum(len(g['events']) for g in gres))
+
+
 def plan(tier, seed):
     n = tier_value(tier, 96, 1600)
     shards = tier_value(tier, 12, 14)
     per = max(1, n // shards)
-    return [dict(first=i * per, count=per, budget_s=tier_value(tier, 50, 540)) for i in range(shards)]
+    specs = [dict(first=i * per, count=per, budget_s=tier_value(tier, 50, 540)) for i in range(shards)]
+    specs.append(dict(kind='fidelity', first=0, count=tier_value(tier, 2, 24), budget_s=tier_value(tier, 50, 400)))
+    return specs
+
+
+def coverage_extra(counters, maxima, sets):
+    return {'traces_validated_against_impl': int(counters.get('traces_validated_against_gloo', 0))}
 
 
 def run_shard(spec, res):
     dl = Deadline(spec['budget_s'])
+    if spec.get('kind') == 'fidelity':
+        for i in range(spec['count']):
+            if dl.over():
+                break
+            run_fidelity(case_rng(spec['seed'], ID, i, 'gloo'), res, i)
+        return
     for i in range(spec['first'], spec['first'] + spec['count']):
         if dl.over():
             break
